@@ -18,7 +18,7 @@ fn h_assume_overflowing_add() {
     assert!(u16::from_be_bytes(e) == ((e[0] as u16) << 8) | (e[1] as u16));
 }
 
-//# id=checksum.add_u16_matches_rfc1071 props=C18 kind=complete features=compute_checksum pair=checksum.Checksum.add_u16.ones_complement_add,checksum.Checksum.as_u16.complement_with_nonzero_zero,checksum.Checksum.add_u32.adds_two_words,checksum.Checksum.add_u8.adds_big_endian_word
+//# id=checksum.add_u16_matches_rfc1071 fns=Checksum::add_u16+add_u8+add_u32+as_u16 props=C18 kind=complete features=compute_checksum pair=checksum.Checksum.add_u16.ones_complement_add,checksum.Checksum.as_u16.complement_with_nonzero_zero,checksum.Checksum.add_u32.adds_two_words,checksum.Checksum.add_u8.adds_big_endian_word
 // the accumulator agrees with a 32-bit deferred-carry reference on any four words, and the emitted field verifies
 #[cfg(feature = "compute_checksum")]
 #[cfg_attr(kani, kani::proof)]
@@ -41,7 +41,7 @@ fn h_ck_accumulator() {
     assert!(field != 0);
 }
 
-//# id=checksum.payload_words props=C18 kind=bounded bound=payload_of_0_to_5_bytes features=compute_checksum pair=checksum.Checksum.accumulate_remainder.sums_payload_words_zero_padded
+//# id=checksum.payload_words fns=Checksum::accumulate_remainder+as_u16 props=C18 kind=bounded bound=payload_of_0_to_5_bytes features=compute_checksum pair=checksum.Checksum.accumulate_remainder.sums_payload_words_zero_padded
 // bounded twin of the Verus loop proof: payloads of 0..=5 bytes (odd lengths zero padded)
 #[cfg(feature = "compute_checksum")]
 #[cfg_attr(kani, kani::proof)]
